@@ -67,7 +67,8 @@ static int rely(const uint64_t* o, const uint64_t* n){
   for (int i=0;i<NN;i++){
     if (P(o[i])!=(uint64_t)i){ if (P(n[i])==(uint64_t)i) return 0; if (R(n[i])!=R(o[i])) return 0; }
     else if (P(n[i])==(uint64_t)i && R(n[i])<R(o[i])) return 0; }
-  for (int i=0;i<NN;i++) for (int j=0;j<NN;j++) if (rootof(o,i)==rootof(o,j) && rootof(n,i)!=rootof(n,j)) return 0;
+  uint64_t ro[NN], rn[NN]; for (int i=0;i<NN;i++){ ro[i]=rootof(o,i); rn[i]=rootof(n,i); }
+  for (int i=0;i<NN;i++) for (int j=0;j<NN;j++) if (ro[i]==ro[j] && rn[i]!=rn[j]) return 0;
   return 1; }
 /* reference model of the SEQUENTIAL operations on a plain array (used as "a complete operation of another thread";
    proved equal to the real kernel from every valid state in the seq obligations) */
@@ -130,6 +131,16 @@ uint32_t sched_yield(void){ __CPROVER_assume(0); return 0; }
 static uint64_t pool[8]; int pool_used = 0;
 uint8_t* _Znam(uint64_t n){ __CPROVER_assert(!pool_used, "single allocation"); pool_used = 1; return (uint8_t*)pool; }
 uint64_t nondet_u64(void); uint8_t nondet_u8(void);
+/* the -DWITNESS twin checks reachability of the end of the harness only */
+#ifdef WITNESS
+#define VASSERT(c, m) ((void)0)
+#else
+#define VASSERT(c, m) __CPROVER_assert(c, m)
+#endif
+/* llvm.ctlz.i64 in PiggyList::get: all indices stay inside the first block (65536 + index, index < 8), where the result is 47;
+   the precondition is asserted at every use, so the shortcut is checked, not assumed */
+static inline unsigned c29_ctlz64(uint64_t x){ __CPROVER_assert(x >= 65536ul && x < 65536ul + 8ul, "block index inside the first PiggyList block (ctlz shortcut precondition)"); return 47u; }
+#define verif_ctlz64(x) c29_ctlz64(x)
 '''
 
 # (a) one operation from an arbitrary valid forest ------------------------------------------------------------
@@ -166,6 +177,7 @@ int main(){
   ghost_step(s0,s1,t0,t1);
   __CPROVER_assert(inv(s1,t1), "forest invariant (rank/id order on true ranks) preserved");
   __CPROVER_assert(rely(s0,s1), "ranks never decrease, non-roots stay non-roots, classes are not split");
+  uint64_t r1[NN]; for (int i=0;i<NN;i++) r1[i]=rootof(s1,i);
   for (int i=0;i<NN;i++) for (int j=0;j<NN;j++) {
     int before = (r0[i]==r0[j]);
 #if OP==0
@@ -173,7 +185,7 @@ int main(){
 #else
     int expect = before;
 #endif
-    __CPROVER_assert((rootof(s1,i)==rootof(s1,j)) == expect, "partition updated exactly as specified");
+    __CPROVER_assert((r1[i]==r1[j]) == expect, "partition updated exactly as specified");
   }
   }
 #ifdef WITNESS
@@ -348,8 +360,8 @@ int main(){
   setup();
   run_op();
   __CPROVER_assert(acyclic(ghost_prev), "final parent links form no cycle");
-  if (acyclic(ghost_prev)) for (int i=0;i<NN;i++) for (int j=0;j<NN;j++)
-    __CPROVER_assert((rootof(ghost_prev,i)==rootof(ghost_prev,j)) == (cls[i]==cls[j]), "final partition is exactly the closure of the requested unions");
+  if (acyclic(ghost_prev)) { for (int i=0;i<NN;i++) rc_[i]=rootof(ghost_prev,i); for (int i=0;i<NN;i++) for (int j=0;j<NN;j++)
+    __CPROVER_assert((rc_[i]==rc_[j]) == (cls[i]==cls[j]), "final partition is exactly the closure of the requested unions"); }
 #ifdef WITNESS
   __CPROVER_assert(budget != 0, "witness");
 #endif
@@ -424,8 +436,9 @@ int main(){
   if (R2==0) merge_cls(cls,a2,b2);
   if (acyclic(s1b)) {
   __CPROVER_assert(rely(s0,s1b), "no class split, non-roots stay non-roots with frozen rank, root ranks monotone");
+  uint64_t r1[NN]; for (int i=0;i<NN;i++) r1[i]=rootof(s1b,i);
   for (int i=0;i<NN;i++) for (int j=0;j<NN;j++)
-    __CPROVER_assert((rootof(s1b,i)==rootof(s1b,j)) == (cls[i]==cls[j]), "final partition is exactly the closure of the requested unions");
+    __CPROVER_assert((r1[i]==r1[j]) == (cls[i]==cls[j]), "final partition is exactly the closure of the requested unions");
   }
   if (R1==1){ if (s1) __CPROVER_assert(cls[a1]==cls[b1], "sameSet true => related at return"); else __CPROVER_assert(cls0[a1]!=cls0[b1], "sameSet false => unrelated at some instant of the call (partition only coarsens: at its start)"); }
   if (R2==1){ if (s2) __CPROVER_assert(cls[a2]==cls[b2], "sameSet true => related at return"); else __CPROVER_assert(cls0[a2]!=cls0[b2], "sameSet false => unrelated at some instant of the call (partition only coarsens: at its start)"); }
@@ -563,6 +576,17 @@ int main(int argc, char** argv){
   return 0;
 }
 '''
+
+
+def _vassert(txt):
+    """all specification assertions of a harness go through VASSERT (compiled out in the witness twin)"""
+    head, sep, tail = txt.partition("#define verif_ctlz64(x) c29_ctlz64(x)")
+    tail = re.sub(r'__CPROVER_assert\((?![^;]*"witness"\))', "VASSERT(", tail)
+    return head + sep + tail
+
+
+H_SEQ, H_PRE, H_RG, H_THR = (_vassert(h) for h in (H_SEQ, H_PRE, H_RG, H_THR))
+
 OPS = ["union", "sameSet", "find"]
 IN_NAMES = ["in_b0", "in_b1", "in_b2", "in_b3", "in_t0", "in_t1", "in_t2", "in_t3", "in_x", "in_y"]
 
